@@ -6,15 +6,16 @@ REGISTRY = {}
 
 
 class Contract:
-    def __init__(self, cid, prop, fn, targets, configs, doc, tier, assumptions):
+    def __init__(self, cid, prop, fn, targets, configs, doc, tier, assumptions, domain=True):
         self.id, self.prop, self.fn, self.targets = cid, prop, fn, targets
         self.configs = configs
         self.doc = doc
         self.tier = tier
         self.assumptions = assumptions
+        self.domain = domain
 
 
-def contract(prop, targets=(), configs=None, tier='quick', name=None, assumptions=()):
+def contract(prop, targets=(), configs=None, tier='quick', name=None, assumptions=(), domain=True):
     """decorator: register fn(env, cfg, ck) as a contract of property `prop` on `targets`
     (dotted names of the repository functions whose behaviour the clauses pin down)."""
     def deco(fn):
@@ -23,7 +24,7 @@ def contract(prop, targets=(), configs=None, tier='quick', name=None, assumption
             raise RuntimeError('duplicate contract id ' + cid)
         cfgs = configs if configs is not None else [{}]
         REGISTRY[cid] = Contract(cid, prop, fn, list(targets) if not isinstance(targets, str) else [targets],
-                                 list(cfgs), (fn.__doc__ or '').strip(), tier, list(assumptions))
+                                 list(cfgs), (fn.__doc__ or '').strip(), tier, list(assumptions), domain)
         return fn
     return deco
 
